@@ -453,6 +453,10 @@ class Checker(CommandMixin):
                 if subscribed:
                     self.v("C12", "subscribed-mailbox-survives", ev,
                            "sweep deleted mailbox %r while connections %r are subscribed" % (k, self.subs.get(k)))
+                    if rec.get("closed_sides"):
+                        self.v("C08", "close-keeps-other-access", ev,
+                               "after side(s) %r closed mailbox %r it was swept although conn(s) %r of a side that has not "
+                               "closed are still subscribed" % (sorted(rec["closed_sides"], key=repr), k, self.subs.get(k)))
                 elif (act is not None and act > now - EXPIRY + EPS and act <= now + EPS
                       and (rec.get("act_t") is None or ev.t - rec["act_t"] < EXPIRY - EPS)
                       and not self.backward_jump):
